@@ -77,7 +77,7 @@ func c01GenCfg(tier string, seed int64, idx int) sim.GenCfg {
 	case 1:
 		g.Profile = gen.Profile{Txt: 1, DeleteBias: 30, MaxDepth: 1, Unicode: true, MaxText: 16}
 	case 2:
-		g.Profile = gen.Profile{Tree: 1, DeleteBias: 30, MaxDepth: 1}
+		g.Profile = gen.Profile{Tree: 1, DeleteBias: 30, MaxDepth: 1, TreeMixed: idx%2 == 1}
 	case 3:
 		g.Profile = gen.Profile{Obj: 3, Cnt: 1, DeleteBias: 25, MaxDepth: 3, NewContainers: 30}
 	}
